@@ -86,6 +86,8 @@ def document_shaping(model):
                         wrapped = True      # a single grid wrapped into a one-element sequence
                         continue
                     v_ = norm(e.value)
+                    if v_ in ('list(%s)' % gparam, 'tuple(%s)' % gparam):
+                        continue            # the iterable is materialised: same grids, same order
                     if re.match(r'^(list\()?filter\(None, %s\)\)?$' % re.escape(gparam), v_) or \
                             re.match(r'^[\[(](\w+) for \1 in %s if \1[\])]$' % re.escape(gparam), v_) or \
                             re.match(r'^(list\()?filter\(bool, %s\)\)?$' % re.escape(gparam), v_):
@@ -215,34 +217,45 @@ def single_traversal(ctx, rule):
     F = 'hszinc/dumper.py'
     worst = None
     npaths = 0
+    # every traversal site of the function, with its position in the text
+    all_sites = _traversals(fn, g)
+    tests = {}
+    for n in ast.walk(fn):
+        if isinstance(n, (ast.If, ast.While, ast.IfExp)):
+            for x in ast.walk(n.test):
+                tests.setdefault(norm(x), x)
+
+    def pos(node):
+        return getattr(node, '_seq', None) if getattr(node, '_seq', None) is not None else (getattr(node, 'lineno', 0) * 1000 + getattr(node, 'col_offset', 0))
+
+    def inside(site, container):
+        return any(x is site for x in ast.walk(container))
     for p in flow.enumerate_paths(body_wo_doc(fn)):
         npaths += 1
-        sites = []
-        material = False
-        items = []
+        on_path = []
+        for e in list(p.effects) + ([p.end_node] if p.end_node is not None else []):
+            on_path.append(e)
         for t, v in p.conds:
-            try:
-                items.append(ast.parse(t.split(' @before')[0], mode='eval').body)
-            except SyntaxError:
-                continue
-        # order: conditions and effects interleave; for counting, order only matters for materialisation, which is an effect
+            node = tests.get(t.split(' @before')[0])
+            if node is not None:
+                on_path.append(node)
+        material = None
         for e in p.effects:
             if isinstance(e, ast.Assign) and len(e.targets) == 1 and norm(e.targets[0]) == g \
                     and norm(e.value) in ('list(%s)' % g, 'tuple(%s)' % g, '[%s]' % g, '(%s,)' % g):
-                if not sites and not any(_traversals(c, g) for c in items):
-                    material = True
+                if material is None or pos(e) < pos(material):
+                    material = e
+        sites = []
+        for s_ in all_sites:
+            if material is not None and inside(s_, material):
                 continue
-            items.append(e)
-        if p.end_node is not None:
-            items.append(p.end_node)
-        seen = set()
-        for it in items:
-            for s_ in _traversals(it, g):
-                k = (getattr(s_, 'lineno', 0), getattr(s_, 'col_offset', 0), norm(s_))
-                if k not in seen:
-                    seen.add(k)
-                    sites.append(s_)
-        if len(sites) >= 2 and not material and p.end == 'return':
+            if any(inside(s_, c) for c in on_path) and s_ not in sites:
+                sites.append(s_)
+        sites.sort(key=pos)
+        if material is not None:
+            before = [s_ for s_ in sites if pos(s_) < pos(material)]
+            sites = before + ([material.value] if before else [])      # after list(g) the argument is re-iterable
+        if len(sites) >= 2 and p.end == 'return':
             if worst is None:
                 worst = sites
     if worst:
